@@ -66,8 +66,8 @@ Qed.
 Section WithNum.
   Context (NM : Num).
 
-  Lemma new_writer_ok : forall w : world NM, w_sink NM w = None ->
-    bw_ok (new_writer NM w) /\ bw_content (new_writer NM w) = [].
+  Lemma new_writer_ok : forall w : world, w_sink w = None ->
+    bw_ok (new_writer w) /\ bw_content (new_writer w) = [].
   Proof. intros w H. unfold new_writer, bw_new, bw_ok, bw_content. cbn. rewrite H. auto. Qed.
 
   (** * the callback protocol as a fold *)
